@@ -41,34 +41,49 @@ extern void mpt_gnode_swap(MPT_STRUCT(node) *pri, MPT_STRUCT(node) *sec)
  */
 extern void mpt_gnode_switch(MPT_STRUCT(node) *pri, MPT_STRUCT(node) *sec)
 {
-	MPT_STRUCT(node) *parent, *next, *prev, *tmp;
+	MPT_STRUCT(node) *pparent, *pnext, *pprev;
+	MPT_STRUCT(node) *sparent, *snext, *sprev;
 	
+	if (pri == sec) {
+		return;
+	}
 	/* save node pointers */
-	parent	= pri->parent;
-	next	= pri->next;
-	prev	= pri->prev;
+	pparent = pri->parent;
+	pnext   = pri->next;
+	pprev   = pri->prev;
+	sparent = sec->parent;
+	snext   = sec->next;
+	sprev   = sec->prev;
 	
+	/* adjacent nodes become neighbours in reverse order */
+	if (pnext == sec) {
+		pnext = pri;
+		sprev = sec;
+	}
+	else if (snext == pri) {
+		snext = sec;
+		pprev = pri;
+	}
 	/* reassign primary */
-	if ((pri->next = tmp = sec->next)) {
-		tmp->prev = pri;
+	pri->parent = sparent;
+	if ((pri->next = snext)) {
+		snext->prev = pri;
 	}
-	else if ((pri->parent = tmp = sec->parent)
-	         && tmp->children == sec) {
-		tmp->children = pri;
+	if ((pri->prev = sprev)) {
+		sprev->next = pri;
 	}
-	if ((pri->prev = tmp = sec->prev)) {
-		tmp->next = pri;
+	else if (sparent) {
+		sparent->children = pri;
 	}
 	/* reassign secondary */
-	if ((sec->next = next)) {
-		next->prev = sec;
+	sec->parent = pparent;
+	if ((sec->next = pnext)) {
+		pnext->prev = sec;
 	}
-	else if ((sec->parent = parent)
-	         && parent->children == pri) {
-		parent->children = sec;
+	if ((sec->prev = pprev)) {
+		pprev->next = sec;
 	}
-	if ((sec->prev = prev)) {
-		prev->next = sec;
+	else if (pparent) {
+		pparent->children = sec;
 	}
 }
-
